@@ -396,7 +396,62 @@ theorem stack_insample_horizon_leaks : ¬ StackTrainsOnHoldoutOnly (fun _ _ => T
 example : OutOfSample [1, 3] 6 := by
   refine ⟨by simp, by simp, by intro h hh; simp at hh; omega, by decide⟩
 
-/-! ## 6. Nesting: members are machines and composites are machines -/
+/-! ## 6. Every public apply entry point is a history of primitive calls
+
+`predict`, `update` then `predict`, `update_predict_single` (= `upsOps`) and `update_predict` with any
+splitter (= `upmOps`: move the cutoff before the new data, update-then-predict per window, put the
+cutoff back) are histories over `update / predict / setCutoff`.  They contain no `fit`, so the
+history theorems above (`ensemble_members_independent`, `ensemble_eq_aggregate_of_members`,
+`pipeline_inner_sees_only_transformed`, `multiplexer_bisim_selected`) hold on each of these paths,
+and a member receives exactly ITS OWN `update_predict` / `update_predict_single` history. -/
+
+/-- the combined entry points are fit-free histories -/
+theorem combined_entry_points_are_fit_free (orig : Option Int) (y : Series) (windows : List Series)
+    (fh : Horizon) (up : Bool) (fh' : Option Horizon) :
+    noFit (upsOps y up fh') ∧ noFit (upmOps orig y windows fh up) := by
+  constructor
+  · intro op hop
+    simp only [upsOps, List.mem_cons, List.mem_nil_iff, or_false] at hop
+    rcases hop with rfl | rfl <;> rfl
+  · intro op hop
+    simp only [upmOps, List.mem_cons, List.mem_append, List.mem_flatMap, List.mem_nil_iff, or_false] at hop
+    rcases hop with rfl | ⟨w, _, rfl | rfl⟩ | rfl <;> rfl
+
+/-- moving the cutoff of an ensemble / stacking forecaster moves the cutoff of every fitted member
+(and nothing else reaches a member) -/
+theorem ensemble_setCutoff_members (agg : Option Agg) (names : List String) (Fs : List Forecaster)
+    (b : Base) (ss : States Fs) (c : Option Int) :
+    ∃ ss', (ensemble agg names Fs).setCutoff (b, some ss) c = ({ b with cutoff := c }, some ss') ∧
+      ∀ i, ss'.get Fs i = (member Fs i).setCutoff (ss.get Fs i) c :=
+  ⟨setCutoffAll Fs ss c, rfl, fun i => setCutoffAll_get Fs ss c i⟩
+
+/-- what a member of an ensemble / the selected member of a multiplexer receives when the composite
+runs `update_predict` with a canonical horizon: exactly the member's own `update_predict` history -/
+theorem member_receives_its_own_update_predict (cur : Option Horizon) (orig : Option Int) (y : Series)
+    (windows : List Series) (fh : Horizon) (up : Bool) (hfh : checkFh fh = .ok fh) :
+    memberOps cur (upmOps orig y windows fh up) = upmOps orig y windows fh up := by
+  apply Lem.memberOps_explicit
+  intro g hg
+  simp only [upmOps, List.mem_cons, List.mem_append, List.mem_flatMap, List.mem_nil_iff, or_false,
+    reduceCtorEq, false_or] at hg
+  rcases hg with ⟨w, _, h⟩
+  simp only [Op.predict.injEq] at h
+  exact ⟨fh, h, hfh⟩
+
+/-- e.g. the ensemble clause on the `update_predict` path: after `fit` and `update_predict`, every
+member is where it gets by `fit` and ITS OWN `update_predict`, run alone -/
+example (agg : Option Agg) (names : List String) (Fs : List Forecaster) (y0 : Series) (f : Horizon)
+    (hf : checkFh f = .ok f) (orig : Option Int) (y : Series) (ws : List Series) (up : Bool) (st outs log)
+    (h : ((ensemble agg names Fs).run (ensemble agg names Fs).init (.fit y0 (some f) :: upmOps orig y ws f up)).run
+      = .ok ((st, outs), log)) :
+    ∃ b ss, st = (b, some ss) ∧ ∀ i, i < Fs.length → ∃ oi li,
+      ((member Fs i).run (member Fs i).init (.fit y0 (some f) :: upmOps orig y ws f up)).run
+        = .ok ((ss.get Fs i, oi), li) := by
+  have := ensemble_members_independent agg names Fs _ y0 (some f) _
+    (combined_entry_points_are_fit_free orig y ws f up none).2 st outs log h
+  rwa [member_receives_its_own_update_predict _ orig y ws f up hf] at this
+
+/-! ## 7. Nesting: members are machines and composites are machines -/
 
 /-- every composite is again a forecaster machine, so all theorems above apply with composites as
 members, to any depth: e.g. the ensemble clause for an ensemble of (a pipeline around a multiplexer)
